@@ -1,0 +1,9 @@
+//go:build verif
+
+package fileutils
+
+// File-system helper: assumed to have no effect on the verified heap.
+//@ func RecursivelyDeleteEmptyParentDirectories
+//@   assumed
+//@   pure
+//@ end
